@@ -1,10 +1,13 @@
 package props
 
 import (
+	"context"
 	"fmt"
+	"github.com/frobnitzem/go-p9p/ramfs"
 	"path"
 	"strings"
 	"time"
+	"verifharness/refcodec"
 
 	p9p "github.com/frobnitzem/go-p9p"
 
@@ -18,6 +21,7 @@ func init() {
 		Level: "exploration",
 		Rule: "ValidPath / WalkName / CreateName / NormalizePath / ToWalk compared with an independent stepwise resolver: EXHAUSTIVE over all name lists of length 0-4 over the alphabet " +
 			`{"", ".", "..", "a", "b.c", "..a", "...", "a/b", "/", "a\\b", "\\"} (16105 lists) x directories {"/", "/a", "/a/b", "/a/b/c"}; plus PRNG lists up to length 17 over the same alphabet extended with random UTF-8/NUL names and deeper directories. ` +
+			"plus one end-to-end probe: every name of the alphabet offered as a create name to ramfs through the session - an unsafe one must be refused and leave the directory listing unchanged. " +
 			"non-trivial = the list contains at least one special form; distinct by (dir, list)",
 		Assumptions: []string{
 			"directories are given in canonical internal form (the property's precondition)",
@@ -26,7 +30,7 @@ func init() {
 		Shards:   shards(8, 16),
 		Timeout:  timeouts(12*time.Minute, 90*time.Minute),
 		MinEvals: 16105 * 4,
-		Required: []string{"validpath_accept", "validpath_reject", "walkname_accept", "walkname_reject_climb", "createname_accept", "createname_reject", "normalize_checked", "towalk_checked", "exhaustive_lists"},
+		Required: []string{"validpath_accept", "validpath_reject", "walkname_accept", "walkname_reject_climb", "createname_accept", "createname_reject", "normalize_checked", "towalk_checked", "exhaustive_lists", "refused_create_probes"},
 		Run:      runC16,
 	})
 }
@@ -247,7 +251,73 @@ func checkC16(w *mon.W, dir string, l []string) {
 	}
 }
 
+// refusedCreatesC16: the helpers' verdict as seen through a file server that relies on them:
+// a create whose name the helpers reject must be refused by ramfs AND leave the directory as it was.
+func refusedCreatesC16(w *mon.W) {
+	ctx := context.Background()
+	sess := p9p.SFileSys(ramfs.VerifNewServer())
+	sess.Attach(ctx, 1, p9p.NOFID, "u", "")
+	sess.Walk(ctx, 1, 2)
+	if _, _, err := sess.Create(ctx, 2, "dir", p9p.DMDIR|0755, p9p.OREAD); err != nil {
+		w.Inconclusive("cannot create the test directory: %v", err)
+		return
+	}
+	sess.Clunk(ctx, 2)
+	list := func() string {
+		sess.Walk(ctx, 1, 3, "dir")
+		defer sess.Clunk(ctx, 3)
+		if _, _, err := sess.Open(ctx, 3, p9p.OREAD); err != nil {
+			return "open failed: " + err.Error()
+		}
+		var names []string
+		off := int64(0)
+		for {
+			buf := make([]byte, 4096)
+			n, err := sess.Read(ctx, 3, buf, off)
+			if err != nil || n == 0 {
+				break
+			}
+			off += int64(n)
+			rest := buf[:n]
+			for len(rest) > 0 {
+				d, used, derr := refcodec.DecodeStat(rest)
+				if derr != nil {
+					break
+				}
+				names = append(names, fmt.Sprintf("%q", d.Name))
+				rest = rest[used:]
+			}
+		}
+		sortStrings(names)
+		return strings.Join(names, ",")
+	}
+	before := list()
+	for _, name := range append(append([]string{}, c16alpha...), "../up", "a/../b", "x\\..\\y", "/abs", "ok1") {
+		unsafe := name == "" || name == "." || name == ".." || hasSep(name)
+		sess.Walk(ctx, 1, 4, "dir")
+		_, _, err := sess.Create(ctx, 4, name, 0644, p9p.ORDWR)
+		sess.Clunk(ctx, 4)
+		w.Count("refused_create_probes", 1)
+		after := list()
+		if unsafe {
+			if err == nil {
+				w.Violate("mismatch", "C16:unsafe-create-accepted", fmt.Sprintf("ramfs accepted the create name %q", name), nil)
+				return
+			}
+			if after != before {
+				w.Violate("mismatch", "C16:refused-create-left-an-entry", fmt.Sprintf("the create name %q was refused (%v) but the directory changed: before [%s], after [%s]", name, err, before, after), nil)
+				return
+			}
+		}
+		before = after
+	}
+}
+
 func runC16(w *mon.W) {
+	if w.Mine(0) {
+		w.CaseQuiet("C16 refused creates through ramfs")
+		refusedCreatesC16(w)
+	}
 	dirs := []string{"/", "/a", "/a/b", "/a/b/c"}
 	// exhaustive part
 	idx := 0
